@@ -309,21 +309,28 @@ func c04Exec(fl c04Flavor, hist []c04Ev) (string, string, string) {
 			fmt.Fprintf(&b, "at%d|", d.pinnedAt/1e9)
 		}
 	}
+	p := w.S.Proxies()[0]
+	pins, sweep, ok1 := wbDialogTable(p)
+	rot, ok2 := wbRotation(w.S.RoundRobins()[0])
+	if !ok1 || !ok2 {
+		fmt.Fprintf(&b, "now=%d|sub:%s,%s|wb:", w.S.W.NowNS/1e9, subBackend, subPinned)
+		b.WriteString(wbDump(p) + wbDump(w.S.RoundRobins()[0]))
+		return b.String(), "", ""
+	}
 	if w.S.W.NowNS > 2e9 {
-		fmt.Fprintf(&b, "now=%d,sweep=%d|", w.S.W.NowNS/1e9, w.S.Proxies()[0].dialogBasedBackends.nextCleanTime.UnixNano()/1e9)
+		fmt.Fprintf(&b, "now=%d,sweep=%d|", w.S.W.NowNS/1e9, sweep.UnixNano()/1e9)
 	}
 	fmt.Fprintf(&b, "sub:%s,%s|", subBackend, subPinned)
-	p := w.S.Proxies()[0]
 	var keys []string
-	for k, v := range p.dialogBasedBackends.backends {
-		if strings.Contains(k, "z9hG4bK") {
+	for _, pin := range pins {
+		if strings.Contains(pin.Key, "z9hG4bK") {
 			continue // client-transaction entries: not consulted in this alphabet (responses come from configured backend addresses)
 		}
-		keys = append(keys, k+"="+v.backend.GetAddress())
+		keys = append(keys, pin.Key+"="+pin.Backend)
 	}
 	sort.Strings(keys)
 	b.WriteString(strings.Join(keys, ";"))
-	fmt.Fprintf(&b, "|rr=%d", w.S.RoundRobins()[0].index)
+	fmt.Fprintf(&b, "|rr=%d", rot.Index)
 	return b.String(), "", ""
 }
 
